@@ -33,6 +33,19 @@ def spec():
                                 "maybePet": {"$ref": "#/components/schemas/NullablePet"}}),
         "NullablePet": {"oneOf": [{"$ref": "#/components/schemas/Cat"}, {"$ref": "#/components/schemas/Dog"}], "nullable": True,
                         "discriminator": {"propertyName": "kind", "mapping": {"cat": "#/components/schemas/Cat", "dog": "#/components/schemas/Dog"}}},
+        # primitive unions in nullable / optional positions (rendered as Union[..., None])
+        "Reading": obj(["code", "flag"], {"code": {"nullable": True, "oneOf": [it, st]}, "flag": {"nullable": True, "oneOf": [it, {"type": "boolean"}]},
+                                          "opt": {"oneOf": [it, st]}}),
+        # several discriminator values for one variant; the discriminator property is an enum of those values
+        "Kit": obj(["species", "name"], {"species": {"type": "string", "enum": ["cat", "kitten"]}, "name": st}),
+        "Pup": obj(["species", "name"], {"species": {"type": "string", "enum": ["dog"]}, "name": st}),
+        "Animal": {"oneOf": [{"$ref": "#/components/schemas/Kit"}, {"$ref": "#/components/schemas/Pup"}],
+                   "discriminator": {"propertyName": "species", "mapping": {"cat": "#/components/schemas/Kit", "kitten": "#/components/schemas/Kit", "dog": "#/components/schemas/Pup"}}},
+        # mapping values given as bare schema names (allowed by OpenAPI) over same-shaped variants
+        "BarePet": {"oneOf": [{"$ref": "#/components/schemas/Cat"}, {"$ref": "#/components/schemas/Dog"}],
+                    "discriminator": {"propertyName": "kind", "mapping": {"cat": "Cat", "dog": "Dog"}}},
+        "MixedPet": {"oneOf": [{"$ref": "#/components/schemas/Cat"}, {"$ref": "#/components/schemas/Dog"}],
+                     "discriminator": {"propertyName": "kind", "mapping": {"cat": "#/components/schemas/Cat", "dog": "Dog"}}},
     }
     ok = {"description": "ok", "content": {"application/json": {"schema": {"$ref": "#/components/schemas/Holder"}}}}
     return {"openapi": "3.0.3", "info": {"title": "U", "version": "1"},
